@@ -339,8 +339,14 @@ impl<'a> TermGen<'a> {
         if depth <= 1 || self.rng.chance(1, 3) {
             return self.leaf(scope);
         }
-        let w: &[u32] = if self.p.binders { &[3, 5, 3, 4, 2, 1] } else { &[3, 5, 3, 0, 0, 0] };
+        let w: &[u32] = if self.p.binders { &[3, 5, 3, 4, 2, 1, 1] } else { &[3, 5, 3, 0, 0, 0, 1] };
         match self.rng.weighted(w) {
+            6 => {
+                let a = self.term(depth - 1, scope);
+                let b = if self.rng.chance(1, 3) { a.clone() } else { self.term(depth - 1, scope) };
+                let c = self.leaf(scope);
+                Tm::node("t", vec![], vec![(vec![], a), (vec![], b), (vec![], c)])
+            }
             0 => Tm::node("u", vec![], vec![(vec![], self.term(depth - 1, scope))]),
             1 => {
                 let a = self.term(depth - 1, scope);
